@@ -12,6 +12,8 @@ pub struct Streamed {
     /// first call after which output_delay() differed from the value read before the stream
     /// (the ratio is constant over the stream): (call index, value)
     pub delay_changed: Option<(usize, usize)>,
+    /// the ratio in use after the last call, read from the hook snapshot (asynchronous types)
+    pub final_ratio: Option<f64>,
 }
 
 /// Feed `x` (single channel, replicated to all channels) through the resampler in its natural
@@ -178,7 +180,9 @@ pub fn resample_all_x<T: Flt>(cfg: &Cfg, x: &[f64], opts: &Opts) -> Result<Strea
         calls.push((x.len() - pos, o));
         pos = x.len();
     }
+    let final_ratio = r.verif_state().scalars.iter().find(|(k, _)| *k == "resample_ratio").map(|(_, v)| f64::from_bits(*v));
     Ok(Streamed {
+        final_ratio,
         out,
         consumed: pos,
         delay,
